@@ -44,4 +44,10 @@ def decodeFnOfKind : Kind → String
   | .bool => "decodeBool" | .u16 => "decodeUint16" | .u16s => "decodeUint16Array"
   | .pathDomain => "decodePathDomain" | .compositeKind => "decodeCompositeKind" | .upvalues => "decodeUpvalueArray"
 
+/-- Go field name of an operand (`firstUpper` of the code generator) -/
+def firstUpper (s : String) : String :=
+  match s.toList with
+  | [] => ""
+  | c :: cs => String.ofList (c.toUpper :: cs)
+
 end Verif.Model.Instr
